@@ -1,7 +1,10 @@
 package props
 
 import (
+	"os"
 	"testing"
+
+	"github.com/yorkie-team/yorkie/pkg/document"
 
 	"pgregory.net/rapid"
 
@@ -13,7 +16,7 @@ import (
 func init() { evals["C15"] = evalC15 }
 
 func evalC15(p prog.Program) Outcome {
-	res := prog.Run(p, prog.RunOpts{ProjTag: "c15", Guard: guardFor("C15", p), TolerateUndoError: true})
+	res := prog.Run(p, prog.RunOpts{ProjTag: "c15", Guard: guardFor("C15", p), TolerateUndoError: true, MakeGuard: makeGuardC15})
 	out := Outcome{Fail: res.Fail, Hist: res.Hist, Ev: res.Ev}
 	if res.Fail == nil {
 		out.NonTrivial = res.Ev["undo_redo_executed"] > 0 && (res.Ev["concurrent_pairs"] > 0 || res.Ev["client_gc_purged"] > 0)
@@ -80,4 +83,12 @@ func genC15() *rapid.Generator[prog.Program] {
 
 func TestC15(t *testing.T) {
 	checkPrograms(t, "C15", "random", genC15(), evalC15)
+}
+
+// makeGuardC15 adds the exclusions that need to look at every replica.
+func makeGuardC15(r *prog.Runner) prog.Guard {
+	if envInt("VERIF_NO_EXCLUSIONS", 0) != 0 || os.Getenv("VERIF_NO_EXCLUSIONS") != "" {
+		return func(d *document.Document, s prog.Step) (prog.Step, string) { return s, "" }
+	}
+	return prog.GuardF33(r)
 }
